@@ -4,6 +4,7 @@ name (bare, through a module attribute, through an alias, with cycles), with def
 keyword-only defaults, set / tuple constants, nested code objects and hidden dynamic calls.
 A program is a spec (plain data); [render] turns it into source files; [edit] changes the spec."""
 import copy
+import random
 import json
 import os
 import subprocess
@@ -22,7 +23,7 @@ def modules_of(spec):
     return ["a", "b"] + (["c"] if any(n["module"] == "c" for n in spec["nodes"]) else [])
 
 
-def gen_spec(rng, n_m=4, n_p=3, n_v=3, pkg="vpk", p_hidden=0.15, p_explicit=0.2, allow_cycles=True, n_u=1, pkg2=False, outside_helpers=False, lambdas=False):
+def gen_spec(rng, n_m=4, n_p=3, n_v=3, pkg="vpk", p_hidden=0.15, p_explicit=0.2, allow_cycles=True, n_u=1, pkg2=False, outside_helpers=False, lambdas=False, twins=False):
     nodes = []
     names = []
     unames = ["U%d" % i for i in range(n_u)]
@@ -113,11 +114,38 @@ def gen_spec(rng, n_m=4, n_p=3, n_v=3, pkg="vpk", p_hidden=0.15, p_explicit=0.2,
             ms = [c["name"] for c in nodes if c["kind"] == "m" and c is not n and (n["module"] != "c" or c["module"] == "c")]
             if ms:
                 n["hidden"] = rng.choice(ms)
+    # features added later draw from a generator derived from the program itself, so the caller's stream is unchanged
+    r2 = random.Random(json.dumps(nodes, sort_keys=True, default=str))
+    for n in fns:
+        # a string literal that is the first constant of a generator expression's code object
+        n["gstr"] = r2.choice(["k", "id:", "item-"]) if (not n.get("lam") and r2.random() < 0.4) else None
+    if twins:
+        # two module variables with the same symbol in different modules, each read by a function of its own module,
+        # both reachable from one memento function
+        fa = [n for n in fns if n["module"] == "a" and not n.get("lam")]
+        fb = [n for n in fns if n["module"] == "b" and not n.get("lam")]
+        roots = [n for n in fns if n["kind"] == "m" and n["module"] in "ab" and n["explicit"] is None]
+        if fa and fb and roots:
+            root = roots[-1]
+            ua, ub = r2.choice(fa), r2.choice(fb)
+            if fns.index(ua) <= fns.index(root) and fns.index(ub) <= fns.index(root):
+                nodes.append({"name": "T0", "kind": "v", "module": "a", "vkind": "int", "value": r2.randint(1, 9), "sym": "SCALE"})
+                nodes.append({"name": "T1", "kind": "v", "module": "b", "vkind": "int", "value": r2.randint(11, 19), "sym": "SCALE"})
+                ua["refs"].append(["T0", "bare"])
+                ub["refs"].append(["T1", "bare"])
+                for u in (ua, ub):
+                    if u is not root and u["name"] not in [r[0] for r in root["refs"]]:
+                        root["refs"].append([u["name"], "bare" if u["module"] == root["module"] else "attr"])
     return {"pkg": pkg, "nodes": nodes}
 
 
 def node(spec, name):
     return next(n for n in spec["nodes"] if n["name"] == name)
+
+
+def sym(n):
+    """the symbol a node is written as in the source (two variables of different modules may share one)"""
+    return n.get("sym", n["name"])
 
 
 def def_lines(spec, n):
@@ -155,8 +183,10 @@ def def_lines(spec, n):
         out.append("    r += (%d, %d)[x %% 2]" % tuple(n["tupconst"]))
     if n["nested"] is not None:
         out.append("    r += sum(v * %d for v in (1, 2))" % n["nested"])
+    if n.get("gstr") is not None:
+        out.append("    r += sum(len(%r + str(v)) for v in (x, 10))" % n["gstr"])
     if n.get("shadow"):
-        out.append("    r += (lambda %s: %s + 1)(0)" % (n["shadow"], n["shadow"]))
+        out.append("    r += (lambda %s: %s + 1)(0)" % (sym(node(spec, n["shadow"])), sym(node(spec, n["shadow"]))))
     if n.get("pair") is not None:
         out.append("    r += x * %d + %d" % tuple(n["pair"]))
     if n.get("sset") is not None:
@@ -166,12 +196,12 @@ def def_lines(spec, n):
         tname, form = rf[0], rf[1]
         t = node(spec, tname)
         if form == "attr":
-            ref = "%s.%s" % (t["module"], tname)
+            ref = "%s.%s" % (t["module"], sym(t))
         elif form == "alias":
             ref = rf[2] if len(rf) > 2 else "al_%s_%s" % (n["name"], tname)
             aliases.append("%s = %s" % (ref, tname))
         else:
-            ref = tname
+            ref = sym(t)
         if form == "live":
             out.append("    r += int(%s(x + 0.5))" % ref)
         elif t["kind"] == "u" or form == "dead":
@@ -208,14 +238,14 @@ def render_module(spec, mod, order_rng=None, plain=False):
     for n in mine:
         if n["kind"] == "v":
             if n["vkind"] == "unsupported":
-                out.append("%s = object()" % n["name"])
+                out.append("%s = object()" % sym(n))
             elif n["vkind"] == "mixedset":
                 # a set whose members cannot be ordered against each other: not a type memento tracks
-                out.append("%s = {\"\", \"NA\", \"n/a\", \"null\", \"-\", None, 0.5}" % n["name"])
+                out.append("%s = {\"\", \"NA\", \"n/a\", \"null\", \"-\", None, 0.5}" % sym(n))
             elif n["vkind"] == "tuplist":
-                out.append("%s = (%r, %r)" % (n["name"], n["value"][0], n["value"][1]))
+                out.append("%s = (%r, %r)" % (sym(n), n["value"][0], n["value"][1]))
             else:
-                out.append("%s = %r" % (n["name"], n["value"]))
+                out.append("%s = %r" % (sym(n), n["value"]))
     out.append("")
     out.append("import dataclasses")
     out.append("@dataclasses.dataclass(frozen=True)")
@@ -267,7 +297,7 @@ def render(spec, root, order_rng=None, plain=False):
     return d
 
 
-EDITS = ["swap-pair", "swap-pair", "sset", "const", "default", "kwdefault", "setconst", "tupconst", "nested", "var", "explicit", "add-ref", "drop-ref", "helper-const", "add-default"]
+EDITS = ["swap-pair", "swap-pair", "sset", "gstr", "twin", "const", "default", "kwdefault", "setconst", "tupconst", "nested", "var", "explicit", "add-ref", "drop-ref", "helper-const", "add-default"]
 
 
 def edit(rng, spec):
@@ -300,6 +330,15 @@ def edit(rng, spec):
         if kind == "sset" and n.get("sset") is not None:
             n["sset"] = sorted(set(n["sset"]) ^ {rng.choice(["0", "1", "2", "3", "4"])}) or ["0"]
             return s, "string set constant of %s" % n["name"]
+        if kind == "gstr" and n.get("gstr") is not None:
+            n["gstr"] += "z"
+            return s, "string literal inside a generator expression of %s" % n["name"]
+        if kind == "twin":
+            tw = [v for v in s["nodes"] if v["kind"] == "v" and v.get("sym")]
+            if tw:
+                v = rng.choice(tw)
+                v["value"] += 1
+                return s, "value of variable %s (%s.%s)" % (v["name"], v["module"], v["sym"])
         if kind == "tupconst" and n["tupconst"] is not None:
             n["tupconst"][rng.randrange(2)] += 1
             return s, "tuple constant of %s" % n["name"]
